@@ -449,14 +449,15 @@ func (p *sparser) parsePrimary() Expr {
 // ---------- contract blocks ----------
 
 type Clause struct {
-	Kind  string   // requires ensures invariant
-	Tags  []string // property ids; empty = always
-	Text  string
-	E     Expr
-	Loop  string                                      // for invariants: loop key (ordinal or label)
-	Ord   int                                         // ordinal within kind (1-based) for naming
-	Where string                                      // file:line
-	Auto  func(get func(v interface{}) string) string // inferred invariant over SSA values
+	Kind      string   // requires ensures invariant
+	Tags      []string // property ids; empty = always
+	Text      string
+	E         Expr
+	Loop      string                                      // for invariants: loop key (ordinal or label)
+	Ord       int                                         // ordinal within kind (1-based) for naming
+	Where     string                                      // file:line
+	Auto      func(get func(v interface{}) string) string // inferred invariant over SSA values
+	AutoState func(st *State) string                      // inferred invariant over the heap state
 }
 
 type Define struct {
@@ -495,6 +496,7 @@ type Contract struct {
 	Schema    []string
 	Props     map[string]bool // all tags mentioned
 	Where     string
+	LEnsures  []*Clause
 	Frames    []*Clause // two-state (old/new) transitive properties of a callback, assumed across the library call
 	Each      []*Clause // "each q :: P(q)": established for tid(key) by every callback invocation, stable
 	EachVar   []string
@@ -505,14 +507,14 @@ type Contract struct {
 }
 
 type SpecDB struct {
-	Contracts map[string]*Contract
-	Defines   map[string]*Define
-	UFuns     map[string]*UFun
-	Ghosts    map[string]string // name -> sort text
-	FieldInvs []*FieldInv
+	Contracts  map[string]*Contract
+	Defines    map[string]*Define
+	UFuns      map[string]*UFun
+	Ghosts     map[string]string // name -> sort text
+	FieldInvs  []*FieldInv
 	GlobalInvs []*FieldInv // invariants of package-level variables (checked in the package initializer)
-	NewInvs   []*FieldInv // facts about freshly allocated (zero) values of library types
-	Axioms    []*Clause
+	NewInvs    []*FieldInv // facts about freshly allocated (zero) values of library types
+	Axioms     []*Clause
 	// statistics for the evidence
 	NLibEntries, NAssume, NAxiom int
 }
@@ -686,6 +688,19 @@ func (db *SpecDB) loadFile(path string, lib bool) error {
 				return fail(fmt.Errorf("clause %q outside a block", word))
 			}
 			switch word {
+			case "lensures":
+				// "local ensures": like ensures, but may mention local variables; it is asserted at every
+				// return at which all the variables it mentions are defined
+				tags, txt := parseTags(rest)
+				e, err := parseSpecExpr(txt)
+				if err != nil {
+					return fail(err)
+				}
+				c := &Clause{Kind: "lensures", Tags: tags, Text: txt, E: e, Where: where, Ord: len(cur.LEnsures) + 1}
+				cur.LEnsures = append(cur.LEnsures, c)
+				for _, t := range tags {
+					cur.Props[t] = true
+				}
 			case "requires", "ensures":
 				tags, txt := parseTags(rest)
 				e, err := parseSpecExpr(txt)
